@@ -910,6 +910,13 @@ class SymStr(object):
                 return a.startswith(p)
             if not p.startswith(a):
                 return False
+        if isinstance(p, str) and self.atoms and isinstance(self.atoms[0], FreeChars):
+            a = self.atoms[0]
+            if len(self.atoms) == 1 or len(p) <= 1:
+                if len(p) > a.maxlen:
+                    return False
+                if len(self.atoms) == 1:
+                    return wrap(z3.And(a.length >= len(p), *[a.chars[i] == ord(ch) for i, ch in enumerate(p)]))
         raise Unsupported('startswith on structured string')
 
     def concrete(self, model_eval):
